@@ -342,7 +342,7 @@ func (s *Sched) goroutineState(id uint64) (state string, inSched bool) {
 // when nobody is left to run, that is a deadlock.
 func (s *Sched) watch() {
 	var last uint64
-	still := 0
+	still, seenBlocked := 0, 0
 	for {
 		select {
 		case <-s.finished:
@@ -351,7 +351,7 @@ func (s *Sched) watch() {
 		}
 		s.mu.Lock()
 		if s.progress != last {
-			last, still = s.progress, 0
+			last, still, seenBlocked = s.progress, 0, 0
 			s.mu.Unlock()
 			continue
 		}
@@ -381,9 +381,16 @@ func (s *Sched) watch() {
 		}
 		st, in := s.goroutineState(s.gids[s.cur])
 		if in || !blockingState(st) {
+			seenBlocked = 0
 			s.mu.Unlock()
 			continue
 		}
+		// (a loaded machine: be sure — the same client, in a blocking state, on five polls in a row without any progress)
+		if seenBlocked++; seenBlocked < 5 {
+			s.mu.Unlock()
+			continue
+		}
+		seenBlocked = 0
 		// the running client is blocked in a primitive
 		me := s.cur
 		s.prim[me] = true
